@@ -636,20 +636,15 @@ func runC06Start(c *Ctx, ea *engineAnchors, eg *EventGraph, outs []outcome) {
 		}
 		nEmit++
 		var hasCount, hasDealer, hasDeck, hasLoop bool
+		hasCount = impliesInt(ps, "len(GS.Players)", 0, 4, func(v int64) bool { return v >= 2 })
+		hasDeck = impliesInt(ps, "len(GS.Meta.Deck)", 0, 4, func(v int64) bool { return v >= 1 })
 		for _, cd := range ps.Conds {
 			if cd.V.K != KAtom {
 				continue
 			}
 			str := cd.V.At.String()
-			// !(len(Players) - 2 < 0)
-			if cd.V.At.Op == "lt" && cd.V.Neg && cd.V.At.A.String() == "len(GS.Players) - 2" {
-				hasCount = true
-			}
 			if cd.V.At.Op == "is" && cd.V.Neg && strings.Contains(str, "recv.dealer") && strings.Contains(str, "nil") {
 				hasDealer = true
-			}
-			if cd.V.At.Op == "eq" && cd.V.Neg && cd.V.At.A.String() == "len(GS.Meta.Deck)" {
-				hasDeck = true
 			}
 		}
 		for _, e := range ps.Events {
